@@ -1,19 +1,398 @@
 package main
 
 import (
+	"encoding/json"
+	"flag"
 	"fmt"
-	"golang.org/x/tools/go/packages"
+	"go/types"
+	"os"
+	"path/filepath"
+	"sort"
+	"strconv"
+	"strings"
+	"sync"
+	"time"
+
 	"golang.org/x/tools/go/ssa"
-	"golang.org/x/tools/go/ssa/ssautil"
 )
 
-func main() {
-	cfg := &packages.Config{Mode: packages.LoadAllSyntax, Dir: "/repo", BuildFlags: []string{"-tags=verif"}}
-	pkgs, err := packages.Load(cfg, "./...")
-	if err != nil {
-		panic(err)
-	}
-	prog, spkgs := ssautil.AllPackages(pkgs, ssa.NaiveForm|ssa.GlobalDebug)
-	prog.Build()
-	fmt.Println(len(spkgs))
+type FuncResult struct {
+	Key      string
+	Con      *Contract
+	OOS      string
+	Obls     []*Obl
+	Gen      *Gen
+	Trusted  []string
+	Assumes  []string
+	GenTime  float64
 }
+
+func newGen(p *Prog, fn *ssa.Function, con *Contract) *Gen {
+	g := &Gen{p: p, fn: fn, con: con, env: map[ssa.Value]*SV{}, layouts: map[string][]Comp{}, famSort: map[string]string{},
+		declFam: map[string]bool{}, typeTag: map[string]int{}, counts: map[string]int{}, specDecl: map[string]bool{},
+		strConsts: map[string]Val{}, closures: map[*ssa.MakeClosure]*ssa.MakeClosure{}, rangeIters: map[*ssa.Range]Val{},
+		pendingHavoc: map[string]bool{}, famLeaf: map[string]IntInfo{}}
+	if con != nil {
+		g.mode = parseMode(con.Arith)
+	}
+	return g
+}
+
+func verifyFunc(p *Prog, con *Contract) (fr *FuncResult) {
+	fr = &FuncResult{Key: con.Key, Con: con}
+	fn := p.findFunc(con.Key)
+	if fn == nil {
+		fr.OOS = "STALE-CONTRACT: function not found"
+		return
+	}
+	g := newGen(p, fn, con)
+	fr.Gen = g
+	t0 := time.Now()
+	defer func() {
+		fr.GenTime = time.Since(t0).Seconds()
+		if r := recover(); r != nil {
+			if o, ok := r.(OOS); ok {
+				fr.OOS = o.msg
+				if g.curPos.IsValid() {
+					fr.OOS += " @" + g.posStr()
+				}
+				fr.Obls = nil
+				return
+			}
+			panic(r)
+		}
+	}()
+	g.run()
+	g.emitAxioms()
+	fr.Obls = g.obls
+	for k := range g.trusted {
+		fr.Trusted = append(fr.Trusted, k)
+	}
+	sort.Strings(fr.Trusted)
+	fr.Assumes = g.assumptions
+	return
+}
+
+func main() {
+	if len(os.Args) < 2 {
+		fmt.Println("usage: govc check|list|replay ...")
+		os.Exit(2)
+	}
+	switch os.Args[1] {
+	case "check":
+		os.Exit(cmdCheck(os.Args[2:]))
+	case "list":
+		os.Exit(cmdList(os.Args[2:]))
+	default:
+		fmt.Println("unknown command")
+		os.Exit(2)
+	}
+}
+
+func cmdList(args []string) int {
+	p, err := LoadProg()
+	if err != nil {
+		fmt.Println(err)
+		return 2
+	}
+	for _, k := range p.cs.Order {
+		c := p.cs.Funcs[k]
+		fmt.Printf("%s trusted=%v props=%v\n", k, c.Trusted, c.Props)
+	}
+	return 0
+}
+
+func hasProp(c *Contract, prop string) bool {
+	for _, p := range c.Props {
+		if p == prop {
+			return true
+		}
+	}
+	return false
+}
+
+func cmdCheck(args []string) int {
+	fs := flag.NewFlagSet("check", flag.ExitOnError)
+	prop := fs.String("prop", "", "property id")
+	tier := fs.String("tier", "quick", "quick|thorough")
+	only := fs.String("func", "", "only functions whose key contains this")
+	dump := fs.String("dump", "", "directory to keep SMT queries")
+	verbose := fs.Bool("v", false, "verbose")
+	noEvidence := fs.Bool("no-evidence", false, "")
+	fs.Parse(args)
+	if t := os.Getenv("VERIF_TIER"); t != "" && *tier == "" {
+		*tier = t
+	}
+	seed := 0
+	if s := os.Getenv("VERIF_SEED"); s != "" {
+		seed, _ = strconv.Atoi(s)
+	}
+	t0 := time.Now()
+	p, err := LoadProg()
+	if err != nil {
+		fmt.Println("load failed:", err)
+		return 2
+	}
+	loadT := time.Since(t0).Seconds()
+	timeout := 10
+	if *tier == "thorough" {
+		timeout = 60
+	}
+	dir := *dump
+	if dir == "" {
+		dir, _ = os.MkdirTemp("", "govc")
+		defer os.RemoveAll(dir)
+	} else {
+		os.MkdirAll(dir, 0o755)
+		os.Setenv("GOVC_KEEP", "1")
+	}
+	// select functions
+	var cons []*Contract
+	for _, k := range p.cs.Order {
+		c := p.cs.Funcs[k]
+		if c.Trusted {
+			continue
+		}
+		if *prop != "" && !hasProp(c, *prop) {
+			continue
+		}
+		if *only != "" && !strings.Contains(k, *only) {
+			continue
+		}
+		cons = append(cons, c)
+	}
+	results := make([]*FuncResult, len(cons))
+	var wg sync.WaitGroup
+	sem := make(chan struct{}, 8)
+	for i, c := range cons {
+		wg.Add(1)
+		go func(i int, c *Contract) {
+			defer wg.Done()
+			sem <- struct{}{}
+			fr := verifyFunc(p, c)
+			<-sem
+			results[i] = fr
+			// solve obligations
+			var ow sync.WaitGroup
+			for _, o := range fr.Obls {
+				ow.Add(1)
+				go func(o *Obl) {
+					defer ow.Done()
+					q := buildQuery(fr.Gen, o)
+					o.Query = ""
+					r := solve(q, dir, o.Name, timeout, *tier == "thorough")
+					o.Status, o.Backend, o.Time, o.Output = r.status, r.backend, r.time, r.output
+					if len(q) > 0 {
+						o.Model = fmt.Sprintf("%d bytes", len(q))
+					}
+				}(o)
+			}
+			ow.Wait()
+		}(i, c)
+	}
+	wg.Wait()
+	rep := report(p, *prop, *tier, seed, results, loadT, time.Since(t0).Seconds(), *verbose, !*noEvidence)
+	return rep
+}
+
+type evidence struct {
+	PropertyID string         `json:"property_id"`
+	Tier       string         `json:"tier"`
+	Seed       int            `json:"seed"`
+	Level      string         `json:"level"`
+	Coverage   map[string]any `json:"coverage"`
+	Assumptions []string      `json:"assumptions"`
+	WallS      float64        `json:"wall_s"`
+	Violations int            `json:"violations"`
+}
+
+func report(p *Prog, prop, tier string, seed int, results []*FuncResult, loadT, wall float64, verbose bool, writeEv bool) int {
+	total, discharged, covers, coversOK := 0, 0, 0, 0
+	byBackend := map[string]int{}
+	solverTime := 0.0
+	var failed []*Obl
+	var vacuous []*Obl
+	var under, proved, oosList, stale []string
+	trusted := map[string]bool{}
+	var assumptions []string
+	var samples []any
+	kinds := map[string]int{}
+	for _, fr := range results {
+		under = append(under, shortKey(fr.Key))
+		if fr.OOS != "" {
+			if strings.HasPrefix(fr.OOS, "STALE-CONTRACT") {
+				stale = append(stale, shortKey(fr.Key))
+				fmt.Printf("STALE-CONTRACT %s\n", shortKey(fr.Key))
+			} else {
+				oosList = append(oosList, shortKey(fr.Key)+": "+fr.OOS)
+				fmt.Printf("OUT-OF-SUBSET %s: %s\n", shortKey(fr.Key), fr.OOS)
+			}
+			continue
+		}
+		ok := true
+		for _, o := range fr.Obls {
+			solverTime += o.Time
+			if o.Expect == "sat" {
+				covers++
+				if o.Status == "unsat" {
+					vacuous = append(vacuous, o)
+					ok = false
+				} else {
+					coversOK++
+				}
+				continue
+			}
+			total++
+			kinds[o.Kind[:strings.IndexAny(o.Kind+"[", "[")]]++
+			if o.Status == "unsat" {
+				discharged++
+				byBackend[o.Backend]++
+				if len(samples) < 6 && (strings.HasPrefix(o.Kind, "ensures") || strings.HasPrefix(o.Kind, "inv")) {
+					samples = append(samples, map[string]any{"obligation": o.Name, "clause": o.Text, "backend": o.Backend, "time_s": round3(o.Time), "query": o.Model})
+				}
+			} else {
+				failed = append(failed, o)
+				ok = false
+			}
+			if verbose {
+				fmt.Printf("  %-8s %-7s %6.2fs %s  %s\n", o.Status, o.Backend, o.Time, o.Name, o.Text)
+			}
+		}
+		if ok {
+			proved = append(proved, shortKey(fr.Key))
+		}
+		for _, t := range fr.Trusted {
+			trusted[t] = true
+		}
+		assumptions = append(assumptions, fr.Assumes...)
+	}
+	for _, o := range failed {
+		fmt.Printf("FAILED %s [%s] %s (%s) %s\n", o.Name, o.Status, o.Text, o.Pos, firstLine(o.Output))
+	}
+	for _, o := range vacuous {
+		fmt.Printf("VACUOUS %s: %s\n", o.Name, o.Text)
+	}
+	fmt.Printf("property=%s functions=%d proved=%d out-of-subset=%d obligations=%d discharged=%d covers=%d/%d solver_time=%.1fs wall=%.1fs\n",
+		prop, len(results), len(proved), len(oosList), total, discharged, coversOK, covers, solverTime, wall)
+	if !writeEv || prop == "" {
+		if len(failed)+len(vacuous) > 0 {
+			return 1
+		}
+		return 0
+	}
+	// known findings / violations
+	violations := 0
+	kf := loadKnownFindings()
+	var kfSeen []string
+	os.MkdirAll(filepath.Join(verifDir, "replays", prop), 0o755)
+	for _, o := range append(failed, vacuous...) {
+		if f := kf.match(prop, o.Name); f != nil {
+			fmt.Printf("KNOWN-FINDING: property=%s %s %s\n", prop, o.Name, f.What)
+			kfSeen = append(kfSeen, o.Name)
+			continue
+		}
+		violations++
+		rp := filepath.Join(verifDir, "replays", prop, sanitizeFile(o.Name)+".json")
+		confirmed := writeReplay(p, rp, prop, o)
+		suffix := ""
+		if !confirmed {
+			suffix = " no-failing-input-found"
+		}
+		fmt.Printf("VIOLATION property=%s replay=%s%s\n", prop, rp, suffix)
+	}
+	if total == 0 {
+		violations++
+		rp := filepath.Join(verifDir, "replays", prop, "no-obligations.json")
+		os.WriteFile(rp, []byte(`{"obligation":"none","reason":"nothing could be verified: no obligation was generated for this property"}`), 0o644)
+		fmt.Printf("VIOLATION property=%s replay=%s no-failing-input-found\n", prop, rp)
+	}
+	var tb []string
+	for t := range trusted {
+		tb = append(tb, "trusted contract: "+shortKey(t))
+	}
+	sort.Strings(tb)
+	tb = append(tb, "govc (own SSA->SMT VC generator, go/ssa NaiveForm), go/types, z3 4.8.12, z3 5.1.0, cvc5 1.0")
+	assumptions = append(assumptions,
+		"len/cap of every slice and string <= 2^48",
+		"Int-sorted signed arithmetic is mathematical with an overflow obligation per operation; unsigned arithmetic wraps exactly",
+		"scheduling, GC, stack depth and allocation failure are not modelled")
+	for _, a := range p.cs.Axioms {
+		if !a.Lemma {
+			assumptions = append(assumptions, "axiom "+a.Name+": "+a.Text)
+		}
+	}
+	cov := map[string]any{
+		"obligations": total, "discharged": discharged,
+		"checker_cmd":  fmt.Sprintf("/verif/bin/govc check -prop %s -tier %s", prop, tier),
+		"trusted_base": tb,
+		"functions_under_contract": under, "functions_proved": proved, "out_of_subset": oosList, "stale_contracts": stale,
+		"by_backend": byBackend, "solver_time_s": round3(solverTime), "load_time_s": round3(loadT),
+		"obligation_kinds": kinds, "vacuity_guards": map[string]int{"total": covers, "satisfiable_or_unrefuted": coversOK},
+		"samples": samples, "known_findings_seen": kfSeen,
+	}
+	ev := evidence{PropertyID: prop, Tier: tier, Seed: seed, Level: "proof", Coverage: cov, Assumptions: assumptions, WallS: round3(wall), Violations: violations}
+	data, _ := json.MarshalIndent(ev, "", " ")
+	os.MkdirAll(filepath.Join(verifDir, "evidence"), 0o755)
+	os.WriteFile(filepath.Join(verifDir, "evidence", prop+".json"), data, 0o644)
+	if violations > 0 {
+		return 1
+	}
+	return 0
+}
+
+func round3(f float64) float64 { return float64(int(f*1000)) / 1000 }
+
+func firstLine(s string) string {
+	s = strings.TrimSpace(s)
+	if i := strings.Index(s, "\n"); i >= 0 {
+		s = s[:i]
+	}
+	if len(s) > 160 {
+		s = s[:160]
+	}
+	return s
+}
+
+// ---- known findings ----
+
+type knownFinding struct {
+	Property   string `json:"property"`
+	Obligation string `json:"obligation"`
+	What       string `json:"what"`
+	Status     string `json:"status"` // open | fixed
+}
+
+type knownFindings struct{ list []knownFinding }
+
+func loadKnownFindings() *knownFindings {
+	kf := &knownFindings{}
+	data, err := os.ReadFile(filepath.Join(verifDir, "known_findings.json"))
+	if err != nil {
+		return kf
+	}
+	var doc struct {
+		Findings []knownFinding `json:"findings"`
+	}
+	json.Unmarshal(data, &doc)
+	kf.list = doc.Findings
+	return kf
+}
+
+func (k *knownFindings) match(prop, obl string) *knownFinding {
+	for i := range k.list {
+		f := &k.list[i]
+		if f.Status == "open" && f.Property == prop && f.Obligation == obl {
+			return f
+		}
+	}
+	return nil
+}
+
+func writeReplay(p *Prog, path, prop string, o *Obl) bool {
+	doc := map[string]any{"property": prop, "obligation": o.Name, "clause": o.Text, "position": o.Pos, "solver_status": o.Status, "backend": o.Backend, "solver_output": o.Output, "confirmed_on_real_code": false}
+	data, _ := json.MarshalIndent(doc, "", " ")
+	os.WriteFile(path, data, 0o644)
+	return false
+}
+
+var _ = types.Typ
